@@ -7,7 +7,9 @@ TLC: Loops.tla -- the five index-walking `while` loops transcribed with explicit
 R:   every TLC-enumerated docstring token sequence is concretised (x 3 indent levels) and run through the real
      entry points (parse, split, emit as doc / param doc / original_doc_str, emit of the parsed IR and re-parse,
      doctrans 1..3 times on a generated module) under the loop monitor (sys.monitoring back-edge counts per
-     activation, bound A + B*n) and a wall-clock watchdog.
+     activation, bound A + B*n) and a wall-clock watchdog.  Pumped inputs (a possibly truncated token, one token repeated 40 times,
+     an optional word; Loops.tla Mode = "pumped") decide "proportional to the size of the input" also for the loops CPython runs
+     in C (regular expressions, str methods): milliseconds normally, a 20 s watchdog.
 V:   the recorded (n, max iterations per activation, done) of every call are validated by TLC against
      TraceLoops.tla.
 """
@@ -32,7 +34,11 @@ GAMMA = {
     "gargs": "Args:\n", "greturns": "Returns:\n", "graises": "Raises:\n", "gitem": "  a (int): b",
     "nparams": "Parameters\n", "nreturns": "Returns\n", "dashes": "----------\n", "nitem": "a : int",
     "defaults": "Defaults to 5", "TAB": "\t", "NBSP": "\u00a0", "or": " or ", "of": " of ",
+    # tokens cut short (Loops!CutTokens): heads of pumped inputs
+    "defaults_cut": "Defaults", "rparam_cut": ":param", "gargs_cut": "Args", "dashes_cut": "--", "nparams_cut": "Parameters",
 }
+PUMP_RUN = 40            # the model checks runs of PumpK = 6; the concrete run is long enough for a super-linear matcher to show
+PUMP_WATCHDOG_S = 20     # a pumped text is < 1 kB and takes milliseconds; 20 s is not "proportional to the size of the input"
 EXTRA = ["Defaults to ", "``` ```", "```None```", "Union[int,", " or ", " of ", "number", "'", '"', "\\", ",",
          "  \n", "\t", "(", ")", "Raises\n", "Usage:\n", ">>> f(1)\n", ":cvar a: ", "a (int, optional): b\n",
          "Default: 5", "\n\n"]
@@ -51,15 +57,15 @@ class Watchdog(BaseException):
 
 
 def _alarm(signum, frame):
-    raise Watchdog("wall-clock watchdog ({}s) expired".format(WATCHDOG_S))
+    raise Watchdog("wall-clock watchdog expired")
 
 
-def monitored(fn, n):
+def monitored(fn, n, watchdog=None):
     """Run fn() under the loop monitor -> (done, iters, err)"""
     from harness.loopmon import MON, LoopBound
 
     MON.begin_call(A + B * n)
-    signal.alarm(WATCHDOG_S)
+    signal.alarm(watchdog or WATCHDOG_S)
     try:
         fn()
         return True, MON.max_iters, None
@@ -166,7 +172,7 @@ def run_case(case, workdir, with_doctrans):
     n = len(text) + 64
     for name, thunk in entry_points(text, indent, workdir, with_doctrans):
         size = thunk.size_of() if hasattr(thunk, "size_of") else n
-        done, iters, err = monitored(thunk, size)
+        done, iters, err = monitored(thunk, size, PUMP_WATCHDOG_S if toks and toks[0] == "pumped" else None)
         out.append({"ep": name, "n": size, "iters": iters, "done": done, "err": err})
     return out
 
@@ -205,7 +211,7 @@ def _check(run, replay, work):
     run.rule = ("case = (docstring text, indent level) from TLC-enumerated token sequences over a 20-token docstring "
                 "alphabet (plus seeded longer random texts); each case runs ~25 entry-point calls under the loop monitor; "
                 "distinct = distinct texts; non-trivial = non-empty text")
-    run.assumptions += ["loops implemented in C (str methods, re, takewhile) are trusted to terminate",
+    run.assumptions += ["loops implemented in C (str methods, re, takewhile) are observed through wall-clock time only (pumped inputs, watchdog)",
                         "iteration bound per loop activation: {} + {} * input size".format(A, B)]
     try:
         import cdd.compound.doctrans  # noqa: F401
@@ -252,9 +258,30 @@ def _check(run, replay, work):
         k = rnd.randint(3, 12)
         text = "".join(rnd.choice(frag) for _ in range(k))
         cases.append((["random"], 0, text))
+    # pumped inputs (Loops.tla, Mode = "pumped"): head + PUMP_RUN copies of one token + tail, at two indent levels; no doctrans
+    pump_k = 4 if quick else 6
+    rq = run.tlc("Loops", "MC_Loops_pumped.cfg", shards=NCPU, constants={"PumpK": pump_k}, timeout=3000)
+    doc_tokens = [t for t in GAMMA if not t.endswith("_cut")]
+    contexts = [[], ["rparam"], ["rreturn"], ["gargs", "gitem"], ["nparams", "dashes", "nitem", "NL", "IND"]]
+    shapes = [(c, h, t, tl) for c in contexts for h in GAMMA for t in doc_tokens for tl in ([], ["word"])]
+    if {tuple(c + [h] + [t] * pump_k + tl) for c, h, t, tl in shapes} != {tuple(d["toks"]) for d in rq.printed}:
+        raise MachineryError("the pumped inputs of Loops.tla ({}) are not the ones the harness concretises ({})".format(
+            len({tuple(d["toks"]) for d in rq.printed}), len(shapes)))
+    n_plain = len(cases)
+    if quick:        # the model covers every shape; the quick replay keeps the truncated heads and a third of the whole ones
+        keep = {h for h in GAMMA if h.endswith("_cut")} | {"word", "NL", "defaults", "colon", "tick", "gitem", "nitem"}
+        shapes = [x for x in shapes if x[1] in keep]
+    for c, h, t, tl in shapes:
+        for indent in ((0,) if quick else (0, 1)):
+            body = "".join(GAMMA[x] for x in c) + GAMMA[h] + GAMMA[t] * PUMP_RUN + "".join(GAMMA[x] for x in tl)
+            pad = "    " * indent
+            cases.append((["pumped", "+".join(c), h, t, "+".join(tl)], indent,
+                          "\n".join((pad + ln) if ln.strip() or ln else ln for ln in body.split("\n")) if indent else body))
+    run.extra["pumped_inputs"] = len(cases) - n_plain
     # doctrans costs ~0.35 s per case (three whole-file runs), everything else ~0.01 s: it runs on a seeded third of the cases in the
     # quick tier; in the thorough tier on every sequence of <= 2 tokens, every random text and a seeded quarter of the 3-token ones
-    flags = [(i % 3 == run.seed % 3) if quick else (len(c[0]) <= 2 or i % 4 == run.seed % 4) for i, c in enumerate(cases)]
+    flags = [False if c[0][:1] == ["pumped"] else ((i % 3 == run.seed % 3) if quick else (len(c[0]) <= 2 or i % 4 == run.seed % 4))
+             for i, c in enumerate(cases)]
     batches = []
     step = 12
     for i in range(0, len(cases), step):
